@@ -324,7 +324,14 @@ macro_rules! impl_rank_small_sel {
                     // with value given by the number of bits. Thus, we must
                     // handle the case in which inv_idx is the the last
                     // inventory entry as a special case.
-                    last_block_idx = self.len().div_ceil(Self::BLOCK_BIT_SIZE);
+                    //
+                    // The counters are relative to the upper block, so the
+                    // search below must not leave the upper block of the rank
+                    // (the vector might continue with further upper blocks
+                    // containing no ones).
+                    last_block_idx = self.len().div_ceil(Self::BLOCK_BIT_SIZE).min(
+                        (upper_block_idx + 1) * (Self::SUPERBLOCK_BIT_SIZE / Self::BLOCK_BIT_SIZE),
+                    );
                 }
 
                 debug_assert!(block_idx < counts.len());
